@@ -2,7 +2,8 @@
 (* Cases for C12: number expressions for the double-precision evaluators.   *)
 EXTENDS Integers, Sequences, FiniteSets, TLC, Json, IOUtils, SequencesExt, Randomization, Term
 Thorough == "TIER" \in DOMAIN IOEnv /\ IOEnv.TIER = "thorough"
-Sub(S, n) == IF Thorough \/ Cardinality(S) <= n THEN S ELSE RandomSubset(n, S)
+\* (the thorough tier samples three times as many of each operand set)
+Sub(S, n) == LET m == IF Thorough THEN 3 * n ELSE n IN IF Cardinality(S) <= m THEN S ELSE RandomSubset(m, S)
 B(k, a, b) == TOp(k, <<a, b>>)
 U(k, a) == TOp(k, <<a>>)
 Q == {TInt(0), TInt(1), TInt(-1), TInt(2), TInt(3), TInt(-7), TInt(10), TRat(1, 2), TRat(1, 3), TRat(-2, 3), TRat(22, 7), TRat(5, 4), TRat(-7, 5), TRat(1, 10), TRat(100, 3)}
